@@ -1145,6 +1145,22 @@ var ops = []op{
 		}
 		return fmt.Sprintf("explicit polarity %s on a payload/continuation/binder of %s in %s", pol, t.Op, s.where)
 	}},
+	{"polarity-on-first-binder", "polarity", func(p *Program, r *rand.Rand, ss []site) string {
+		// '<-a, b> <- recv x' / '<-a, b> <- split x' / 'l<-a> => ...': a mark right after '<'
+		s := pickSite(r, ss, func(s site) bool { return s.t.Op == "recv" || s.t.Op == "split" || s.t.Op == "case" })
+		if s == nil {
+			return ""
+		}
+		pol := []string{"-", "-", "+"}[r.Intn(3)]
+		if s.t.Op == "case" {
+			s.t.Brs = append([]CaseBr(nil), s.t.Brs...)
+			i := r.Intn(len(s.t.Brs))
+			s.t.Brs[i].Var = pol + Base(s.t.Brs[i].Var)
+		} else {
+			s.t.Y = pol + Base(s.t.Y)
+		}
+		return fmt.Sprintf("explicit polarity %s on the first binder of %s in %s", pol, s.t.Op, s.where)
+	}},
 	{"polarity-on-argument", "polarity", func(p *Program, r *rand.Rand, ss []site) string {
 		s := pickSite(r, ss, func(s site) bool { return s.t.Op == "call" && len(s.t.Args) > 0 })
 		if s == nil {
